@@ -62,7 +62,15 @@ def ev_call(eng, e, st):
         if isinstance(f, FnV) and f.kind == 'spec' and f.name in LAZY_SPEC:
             yield from LAZY_SPEC[f.name](eng, e, st0)
             continue
-        for ak, st1 in ev_args(eng, e, st0):
+        clause_in_lemma = isinstance(f, FnV) and f.kind == 'spec' and f.name in ('requires', 'ensures') and eng.lemma_mode
+        if clause_in_lemma:
+            eng.spec_mode = True       # clause arguments are formulas: no path splitting, no obligations
+        try:
+            arg_outcomes = list(ev_args(eng, e, st0))
+        finally:
+            if clause_in_lemma:
+                eng.spec_mode = False
+        for ak, st1 in arg_outcomes:
             if isinstance(ak, Raised):
                 yield ak, st1
                 continue
@@ -95,6 +103,11 @@ def apply(eng, f, args, kwargs, st, node=None):
         yield from SPEC[f.name](eng, args, kwargs, st)
     elif f.kind == 'specdef':
         yield from call_specdef(eng, f, args, kwargs, st)
+    elif f.kind == 'uf':
+        if not any(is_z3(a) for a in args) and f.name in NATIVE_UF:
+            yield NATIVE_UF[f.name](*args), st          # concrete replay: the spec function has an executable meaning
+        else:
+            yield f.node(*[to_z3(to_num(a) if not is_bool_like(a) else a) for a in args]), st
     else:
         raise OutOfSubset('call kind %s' % f.kind)
 
@@ -629,7 +642,71 @@ def spec_length(eng, args, kwargs, st):
     yield length(eng, args[0], st), st
 
 
+def spec_array_of(eng, args, kwargs, st):
+    """array_of(n, lambda i: e)  /  array_of(n, m, lambda i, j: e): a definitional array (used by `returns`)"""
+    *dims, lam = args
+    dt = kwargs.get('dtype', 'real')
+
+    def at(*i, lam=lam):
+        for v, _ in call_lambda(eng, lam, list(i), st):
+            return v
+    return_ref = new_ref(st, ArrV(tuple(dims), at, dt))
+    yield return_ref, st
+
+
+_UF = {}
+NATIVE_UF = {}
+
+
+def _chord_spec():
+    import importlib.util
+    import os
+    p = os.path.join(os.path.dirname(os.path.dirname(os.path.abspath(__file__))), 'contracts', '_chord_spec.py')
+    sp = importlib.util.spec_from_file_location('_chord_spec', p)
+    m = importlib.util.module_from_spec(sp)
+    sp.loader.exec_module(m)
+    return m
+
+
+def _native_chord():
+    m = _chord_spec()
+
+    def enc(l):
+        try:
+            return m.encode(l)
+        except Exception:
+            return None
+    NATIVE_UF['enc_root'] = lambda l: (enc(l) or (0, [0] * 12, 0))[0]
+    NATIVE_UF['enc_bit'] = lambda l, k: (enc(l) or (0, [0] * 12, 0))[1][int(k)]
+    NATIVE_UF['enc_bass'] = lambda l: (enc(l) or (0, [0] * 12, 0))[2]
+    NATIVE_UF['valid_label'] = lambda l: m.accepts(l)
+    NATIVE_UF['encodable'] = lambda l: enc(l) is not None
+
+
+_native_chord()
+
+
+def uninterpreted(name, arg_kinds, res_kind):
+    key = (name, tuple(arg_kinds), res_kind)
+    if key not in _UF:
+        sorts = {'Int': z3.IntSort(), 'Real': z3.RealSort(), 'Bool': z3.BoolSort(), 'ObjT': kinds.OBJ_SORT}
+        _UF[key] = z3.Function(name, *([sorts[a] for a in arg_kinds] + [sorts[res_kind]]))
+    return _UF[key]
+
+
+def spec_returns(eng, args, kwargs, st):
+    eng.clauses.append({'kind': 'returns', 'value': args[0]})
+    yield None, st
+
+
+def spec_loop_index(eng, args, kwargs, st):
+    yield st.env['__idx%d' % int(args[0])], st
+
+
 SPEC = {
+    'loop_index': spec_loop_index,
+    'array_of': spec_array_of,
+    'returns': spec_returns,
     'forall': spec_forall,
     'exists': lambda eng, a, k, st: spec_forall(eng, a, k, st, exists=True),
     'forall2': spec_forall2,
